@@ -238,7 +238,7 @@ from diffpy.structure import Lattice, Structure  # noqa: E402
 from orix.quaternion.symmetry import D3d  # noqa: E402
 
 dask.config.set(scheduler="synchronous")   # tiny arrays: the thread pool only adds latency to lazy=True calls
-REPS = max(1, N // 240)
+REPS = min(5, max(1, N // 240))          # quick: 1 pass (~17 s); thorough: 5 passes with fresh random data
 MODES = ["none", "mixed", "all"]
 PH_CUB = Phase(point_group="m-3m")
 PH_HEX = Phase(point_group="6/mmm", structure=Structure(lattice=Lattice(3.2, 3.2, 5.1, 90, 90, 120)))
